@@ -17,8 +17,8 @@ var (
 	realms         = []string{"API", "my \"realm\"", "back\\slash", "both \\\" of them", "ü €", "a,b=c", "\"", "\\", "trailing\\", " spaced  out ", "realm=\"x\", Basic realm=\"y\""}
 	realmAlphabet  = []rune{'a', 'Z', '0', '"', '\\', ' ', ',', '=', ';', '%', 'ü', '€', '\''}
 	methods        = []string{"get", "get", "head", "head", "post", "put", "delete"}
-	outcomes       = []string{"value", "value", "value", "nil", "responder", "responder", "mwerror", "notimpl", "errplain", "errstatus", "errcomposite"}
-	creds          = []string{"good", "good", "good", "good", "bad", "none", "malformed", "bearer"}
+	outcomes       = []string{"value", "value", "value", "nil", "responder", "responder", "resperr", "mwerror", "notimpl", "errplain", "errstatus", "errcomposite"}
+	creds          = []string{"good", "good", "good", "good", "bad", "none", "malformed", "bearer", "goodbearer"}
 )
 
 func genProduces(t *rapid.T, min, max int) []string {
@@ -53,6 +53,7 @@ func Gen(t *rapid.T) Case {
 	c.Realm = genRealm(t)
 	c.RealmCtx = rapid.IntRange(0, 2).Draw(t, "realmctx") == 0
 	c.AuthErr = rapid.SampledFrom([]string{"unauth", "unauth", "plain", "forbidden"}).Draw(t, "autherr")
+	c.LateResponder = rapid.IntRange(0, 2).Draw(t, "late-responder") == 0
 	nops := rapid.IntRange(1, 4).Draw(t, "nops")
 	for i := 0; i < nops; i++ {
 		op := Op{Method: rapid.SampledFrom(methods).Draw(t, "method")}
@@ -62,6 +63,9 @@ func Gen(t *rapid.T) Case {
 		op.Codes = append([]int(nil), rapid.SampledFrom(codeSets).Draw(t, "codes")...)
 		op.DefaultResp = len(op.Codes) == 0 || rapid.Bool().Draw(t, "defaultresp")
 		op.Secured = rapid.IntRange(0, 2).Draw(t, "secured") != 0
+		if op.Secured {
+			op.Bearer = rapid.SampledFrom([]string{"", "", "after", "before"}).Draw(t, "bearer-alternative")
+		}
 		op.Param = rapid.IntRange(0, 3).Draw(t, "param") == 0
 		c.Ops = append(c.Ops, op)
 	}
@@ -153,8 +157,11 @@ func Classify(c Case) (bool, []string) {
 		case rq.Route != "":
 			stage = rq.Route
 			nt = true
-		case op.Secured && rq.Cred != "good":
+		case op.Secured && !op.admits(rq.Cred):
 			stage = "auth failure: " + rq.Cred
+			if op.Bearer != "" {
+				l["auth failure with an oauth2 alternative listed "+op.Bearer+" basic: "+rq.Cred] = true
+			}
 			if strings.ContainsAny(c.Realm, "\"\\") {
 				l["challenge for a realm with quote or backslash"] = true
 			}
@@ -174,6 +181,9 @@ func Classify(c Case) (bool, []string) {
 			continue
 		}
 		l["outcome: "+rq.Outcome] = true
+		if op.Secured && rq.Cred == "goodbearer" {
+			l["admitted through the oauth2 alternative"] = true
+		}
 		if withParams {
 			l["produces entry with parameters"] = true
 			nt = true
@@ -211,6 +221,9 @@ func Classify(c Case) (bool, []string) {
 			nt = true
 		}
 	}
+	if c.LateResponder {
+		l["error responder installed after the handler was built"] = true
+	}
 	out := make([]string, 0, len(l))
 	for k := range l {
 		out = append(out, k)
@@ -221,8 +234,8 @@ func Classify(c Case) (bool, []string) {
 
 const rule = "one API per case: 1-4 operations (GET/HEAD/POST/PUT/DELETE) with own or inherited produces lists of 1-4 entries incl. entries with parameters, stamped producers for every type, " +
 	"API default type JSON or another (declared in produces or not), declared responses {200; 201+200; 204; 204+200; 202+299; 299; 200+404+500; 404+201; 404 only; default only; ...}, " +
-	"basic auth (realm with quotes, backslashes, commas, non-ASCII; BasicAuthRealm or BasicAuthRealmCtx; rejection by Unauthenticated / plain / 403 error), optional required query parameter; " +
-	"8-16 requests: Accept from C07's structured tier (none, one exact type, foreign type, generated ranges), credentials good/bad/none/malformed/bearer, handler outcome value / nil / Responder / middleware.Error / NotImplemented / " +
+	"basic auth (realm with quotes, backslashes, commas, non-ASCII; BasicAuthRealm or BasicAuthRealmCtx; rejection by Unauthenticated / plain / 403 error; optionally an oauth2 bearer scheme as alternative requirement before or after it), optional required query parameter, error responder installed before or after the handler is built; " +
+	"8-16 requests: Accept from C07's structured tier (none, one exact type, foreign type, generated ranges), credentials good/bad/none/malformed/rejected bearer/accepted bearer, handler outcome value / nil / Responder / Responder that is an error as well / middleware.Error / NotImplemented / " +
 	"plain error / errors.Error with status / composite error. Oracle: status = lowest declared 2xx; Content-Type is an offer ranked highest by the structure (a set, map order); body stamp = producer registered for the announced type " +
 	"without parameters; empty body for HEAD and 204; a Responder is handed that same producer; errors (handler, 404/405, 406, 422, authentication, no 2xx declared) reach the recording error responder exactly once with that error value, " +
 	"Content-Type JSON when nothing was negotiated; failed or absent basic credentials carry one WWW-Authenticate challenge whose quoted-string realm decodes to the configured realm. " +
